@@ -8,7 +8,9 @@ RULE = ('E1: all 8192 presence subsets of the 13 settable properties with '
         'representative values; every alternative value of every property x '
         'subsets of the other 12 (quick: sizes 0-2 and 10-12, thorough: all '
         '4096); pairs of alternative values; the empty-string spelling of '
-        'unset; body size x channel alphabets. A case is (property dict, '
+        'unset; body size x channel alphabets; dense interior sweeps (every '
+        'priority 0..255, every string-property length 0..255, timestamps at '
+        'every 2^k+-1, header tables of 0..199 entries). A case is (property dict, '
         'body size, channel); non-trivial = at least one property set or a '
         'non-zero size/channel.')
 BOUNDS = {
